@@ -15,13 +15,30 @@ Definition tx := (Z * calldata)%type.
 (** the other stores, as far as verification and the modelled follow-ups read and write them:
     stored snapshots already projected to this chain's compass valset, whether a compass contract
     is known, the deployment records of the user contracts, the current block height *)
-Definition wstate := ((list (Z * valset) * bool) * (list urec * Z))%type.
-Definition wsnaps (w : wstate) : list (Z * valset) := fst (fst w).
-Definition wcompass (w : wstate) : bool := snd (fst w).
-Definition wurecs (w : wstate) : list urec := fst (snd w).
-Definition wheight (w : wstate) : Z := snd (snd w).
-Definition set_urecs (w : wstate) (l : list urec) : wstate := (fst w, (l, wheight w)).
-Definition set_height (h : Z) (w : wstate) : wstate := (fst w, (wurecs w, h)).
+Record wstate := {
+  wsnaps : list (Z * valset);   (* stored snapshots the messages may name, projected to the compass valset *)
+  wcompass : bool;              (* a compass contract is known *)
+  wurecs : list urec;           (* deployment records of the user contracts *)
+  wheight : Z;                  (* current block height *)
+  wlive : list (Z * Z);         (* (snapshot id, chain): the chain is listed in that snapshot's Chains (with repetitions) *)
+  wactive : list (Z * Z);       (* (chain, id of the chain's active compass contract) *)
+  wcurrent : Z                  (* id of the current (= last stored) snapshot; ids 1 .. wcurrent are stored *)
+}.
+Definition set_urecs (w : wstate) (l : list urec) : wstate :=
+  {| wsnaps := wsnaps w; wcompass := wcompass w; wurecs := l; wheight := wheight w; wlive := wlive w; wactive := wactive w; wcurrent := wcurrent w |}.
+Definition set_height (h : Z) (w : wstate) : wstate :=
+  {| wsnaps := wsnaps w; wcompass := wcompass w; wurecs := wurecs w; wheight := h; wlive := wlive w; wactive := wactive w; wcurrent := wcurrent w |}.
+Definition set_chain_facts (live active : list (Z * Z)) (cur : Z) (w : wstate) : wstate :=
+  {| wsnaps := wsnaps w; wcompass := wcompass w; wurecs := wurecs w; wheight := wheight w; wlive := live; wactive := active; wcurrent := cur |}.
+Fixpoint set_assoc (k v : Z) (l : list (Z * Z)) : list (Z * Z) :=
+  match l with
+  | [] => [(k, v)]
+  | (k', v') :: r => if k' =? k then (k, v) :: r else (k', v') :: set_assoc k v r
+  end.
+(** k.Valset.GetLatestSnapshotOnChain(chain) finds a snapshot: SOME stored snapshot lists the chain *)
+Definition live_on (w : wstate) (chain : Z) : bool := existsb (fun p => snd p =? chain) (wlive w).
+(** FindSnapshotByID succeeds *)
+Definition snapshot_stored (w : wstate) (id : Z) : bool := (1 <=? id) && (id <=? wcurrent w).
 Fixpoint vs_lookup (id : Z) (l : list (Z * valset)) : valset :=
   match l with
   | [] => empty_valset
@@ -47,20 +64,43 @@ Definition bfield (b : body) (i : Z) : Z := hd 0 (lookup i (b_vals b)).
 
 Definition apply_effect (e : envt) (m : cmsg) (t : tx) (w : wstate) : option (wstate * list body) :=
   let b := m_body _ _ _ m in
+  let chain := bfield b 104 in
   match b_kind b with
-  | KSubmitLogicCall | KUpdateValset => Some (w, [])
+  | KSubmitLogicCall => Some (w, [])
+  | KUpdateValset =>
+    (* SetSnapshotOnChain(new valset id, chain): the chain is appended to that snapshot's Chains; an
+       unknown snapshot is only logged *)
+    Some (if snapshot_stored w (bfield b 100)
+          then set_chain_facts (wlive w ++ [(bfield b 100, chain)]) (wactive w) (wcurrent w) w else w, [])
+  | KUploadCompass =>
+    (* the deployment record is checked and updated (observed: e = None when that fails); then the
+       DECISION: no stored snapshot lists the chain (GetLatestSnapshotOnChain = ErrNotFound) => first
+       deployment: the current snapshot is listed on the chain and the contract becomes the active
+       compass at once; otherwise the deployment waits and a handover is scheduled (what that
+       queues: observed) -- activation then needs the handover's own transaction *)
+    match e with
+    | None => None
+    | Some l =>
+      if live_on w chain then Some (w, l)
+      else Some (set_chain_facts (wlive w ++ [(wcurrent w, chain)]) (set_assoc chain (bfield b 100) (wactive w)) (wcurrent w) w, l)
+    end
+  | KHandover =>
+    (* SetSmartContractAsActive (fails unless the deployment waits for the handover: observed) *)
+    match e with
+    | None => None
+    | Some l => Some (set_chain_facts (wlive w) (set_assoc chain (bfield b 100) (wactive w)) (wcurrent w) w, l)
+    end
   | KUploadUser =>
     (* SetUserSmartContractDeploymentActive: the record of THIS message (contract id, chain, the
        height at which its deployment was put in flight) becomes ACTIVE; no such record: error *)
     match e with
     | None => None
     | Some l =>
-      match finish (wurecs w) (bfield b 100) (bfield b 104) (bfield b 102) 1 (wheight w) with
+      match finish (wurecs w) (bfield b 100) chain (bfield b 102) 1 (wheight w) with
       | Some recs => Some (set_urecs w recs, l)
       | None => None
       end
     end
-  | _ => match e with None => None | Some l => Some (w, l) end
   end.
 (** the follow-up of an error proof: update_valset and the handover only emit an event -- PREDICTED;
     a user contract upload beyond the retry limit marks its own record ERROR (a failure to find it
@@ -151,6 +191,8 @@ Inductive cop :=
 | XHeight (h : Z)                                   (* the block height moved *)
 | XUserDeploy (cid chain : Z)                       (* CreateUserSmartContractDeployment succeeded *)
 | XUserSync (recs : list (Z * Z * Z * Z * Z))       (* an end-blocker purged stale user contracts: the records as they are now *)
+| XChainSync (live active : list (Z * Z)) (cur : Z)  (* set-up / snapshots built meanwhile: which snapshots list which chain, the active
+                                                      compass per chain, the id of the current snapshot -- as they are now *)
 | XAttest (id : Z) (spawned : option (list (Z * Z * list (Z * val))))
 | XEndBlock (spawned : list (Z * option (list (Z * Z * list (Z * val))))).
 
@@ -167,11 +209,14 @@ Record obs := {
   o_processed : list Z;      (* hash ids of the transactions of this history that are marked processed, ascending *)
   o_relay : list (Z * bool); (* metrix records (message id, success), by message id *)
   o_effects : list (Z * Z);  (* committed success follow-ups seen in the stores: (kind, key), sorted *)
-  o_urecs : list (Z * Z * Z * Z * Z) (* user contract deployment records (contract, chain, created, updated, status), by contract *)
+  o_urecs : list (Z * Z * Z * Z * Z); (* user contract deployment records (contract, chain, created, updated, status), by contract *)
+  o_live : list (Z * Z);     (* (snapshot id, chain) for every listing of a chain in a stored snapshot, sorted *)
+  o_active : list (Z * Z)    (* (chain, active compass contract id) of every chain with an active compass, by chain *)
 }.
-Definition obs_t := (Z * list Z * list Z * list (Z * bool) * list (Z * Z) * list (Z * Z * Z * Z * Z))%type.
+Definition obs_t := (Z * list Z * list Z * list (Z * bool) * list (Z * Z) * list (Z * Z * Z * Z * Z) * list (Z * Z) * list (Z * Z))%type.
 Definition mk_obs (t : obs_t) : obs :=
-  let '(r, q, p, l, e, u) := t in {| o_res := r; o_queue := q; o_processed := p; o_relay := l; o_effects := e; o_urecs := u |}.
+  let '(r, q, p, l, e, u, lv, ac) := t in
+  {| o_res := r; o_queue := q; o_processed := p; o_relay := l; o_effects := e; o_urecs := u; o_live := lv; o_active := ac |}.
 
 Definition env_of (o : option (list (Z * Z * list (Z * val)))) : envt := option_map (map mk_body) o.
 Fixpoint env_lookup (l : list (Z * option (list (Z * Z * list (Z * val))))) (id : Z) : envt :=
@@ -182,7 +227,8 @@ Fixpoint env_lookup (l : list (Z * option (list (Z * Z * list (Z * val))))) (id 
 
 Definition mk_urec (t : Z * Z * Z * Z * Z) : urec :=
   let '(c, ch, cr, up, st) := t in {| u_cid := c; u_chain := ch; u_created := cr; u_updated := up; u_status := st |}.
-Definition set_compass (b : bool) (w : wstate) : wstate := ((wsnaps w, b), snd w).
+Definition set_compass (b : bool) (w : wstate) : wstate :=
+  {| wsnaps := wsnaps w; wcompass := b; wurecs := wurecs w; wheight := wheight w; wlive := wlive w; wactive := wactive w; wcurrent := wcurrent w |}.
 
 (** an id handed to another queue: the turnstone queue never shows it *)
 Fixpoint skip_ids (sn : snapshot) (s : cstate) (k : nat) : cstate :=
@@ -208,6 +254,7 @@ Definition apply_cop (sn : snapshot) (s : cstate) (o : cop) : cstate * Z :=
   | XHeight h => (c_rstep sn s (RWorld (set_height h)), 0)
   | XUserDeploy cid chain => (c_rstep sn s (RWorld (fun w => set_urecs w (create (wurecs w) cid chain (wheight w)))), 0)
   | XUserSync recs => (c_rstep sn s (RWorld (fun w => set_urecs w (map mk_urec recs))), 0)
+  | XChainSync live active cur => (c_rstep sn s (RWorld (set_chain_facts live active cur)), 0)
   | XAttest id e =>
     (* = c_rstep sn s (RAttest id (env_of e) c_ord), keeping attestRouter's result *)
     let s1 := c_step (abs s) (OpEvidence _ _ _ _ _ id (c_elected sn s id c_ord)) in
@@ -258,7 +305,7 @@ Definition effect_key (w : wstate) (e : effect body sigd valset tx) : list (Z * 
   match b_kind b with
   | KSubmitLogicCall => []
   | KUpdateValset => (* SetSnapshotOnChain on an unknown snapshot fails and is only logged *)
-    if existsb (fun p => fst p =? bfield b 100) (wsnaps w) then [(2, key)] else []
+    if snapshot_stored w (bfield b 100) then [(2, key)] else []
   | k => [(kind_z k, key)]
   end.
 
@@ -290,7 +337,9 @@ Definition obs_ok (rs : cstate) (r : Z) (o : obs) : bool :=
   && list_eqb Z.eqb (dedup_sorted (sort_z (processed _ _ _ _ _ _ s))) (o_processed o)
   && list_eqb relay_eqb (sort_r (relay_log _ _ _ _ _ _ s)) (o_relay o)
   && list_eqb zz_eqb (sort_p (flat_map (effect_key (world _ _ _ _ _ _ s)) (effects _ _ _ _ _ _ s))) (o_effects o)
-  && urecs_eqb (sort_u (wurecs (world _ _ _ _ _ _ s))) (o_urecs o).
+  && urecs_eqb (sort_u (wurecs (world _ _ _ _ _ _ s))) (o_urecs o)
+  && list_eqb zz_eqb (sort_p (wlive (world _ _ _ _ _ _ s))) (o_live o)
+  && list_eqb zz_eqb (sort_p (filter (fun p => negb (snd p =? 0)) (wactive (world _ _ _ _ _ _ s)))) (o_active o).
 
 Fixpoint run_steps (sn : snapshot) (s : cstate) (l : list (cop * obs_t)) : bool :=
   match l with
@@ -299,7 +348,8 @@ Fixpoint run_steps (sn : snapshot) (s : cstate) (l : list (cop * obs_t)) : bool 
   end.
 
 Definition c_init (snaps : list (Z * valset)) (n0 : Z) : cstate :=
-  rinit body sigd valset Z tx wstate ((snaps, true), ([], 0)) n0.
+  rinit body sigd valset Z tx wstate
+    {| wsnaps := snaps; wcompass := true; wurecs := []; wheight := 0; wlive := []; wactive := []; wcurrent := 0 |} n0.
 Definition mk_snapshot (shares : list (Z * Z)) (total : Z) : snapshot := {| sn_vals := shares; sn_total := total |}.
 
 Inductive case :=
@@ -334,7 +384,7 @@ Fixpoint first_bad (sn : snapshot) (rs : cstate) (l : list (cop * obs_t)) (i : Z
     if obs_ok rs' res ob' then first_bad sn rs' r (i + 1)
     else Some (i, res, map (m_id _ _ _) (queue _ _ _ _ _ _ s'), dedup_sorted (sort_z (processed _ _ _ _ _ _ s')),
                sort_r (relay_log _ _ _ _ _ _ s'), sort_p (flat_map (effect_key (world _ _ _ _ _ _ s')) (effects _ _ _ _ _ _ s')),
-               sort_u (wurecs (world _ _ _ _ _ _ s')))
+               sort_u (wurecs (world _ _ _ _ _ _ s')), sort_p (wlive (world _ _ _ _ _ _ s')), sort_p (wactive (world _ _ _ _ _ _ s')))
   end.
 Definition diagnose (c : case) :=
   match c with
